@@ -167,7 +167,7 @@ func checkC11(w *World, r *Report) {
 	checkScopePairing(w, r, d, "C11.2")
 
 	// ---- C11.3
-	ru3 := r.Rule("C11.3", "option gates: the auto-OPTIONS handler is called only under Method == OPTIONS and the handleOptions flag, the no-method handler only under the handleMethodNotAllowed flag; both only when at least one method was collected", 2)
+	ru3 := r.Rule("C11.3", "option gates: the auto-OPTIONS handler is called only under Method == OPTIONS and the handleOptions flag, the no-method handler only under the handleMethodNotAllowed flag; both only when at least one method was collected", 1)
 	router := w.FoxType("Router")
 	flagFor := map[string]string{"autoOptions": "handleOptions", "noMethod": "handleMethodNotAllowed"}
 	for _, f := range fields {
@@ -213,7 +213,7 @@ func checkC11(w *World, r *Report) {
 func checkScrubRule(w *World, r *Report, d *dispatchInfo, id string) {
 	cf := d.cf
 	// ---- C11.1
-	ru := r.Rule(id, "scrub before every special handler: on every path to a call of Router.noRoute/noMethod/autoOptions/tsrRedirect the context's params are truncated to 0, route is nil and tsr is false, with no later write that could undo it", 4)
+	ru := r.Rule(id, "scrub before every special handler: on every path to a call of Router.noRoute/noMethod/autoOptions/tsrRedirect the context's params are truncated to 0, route is nil and tsr is false, with no later write that could undo it", 2)
 	ru.Idiom("*c.params = (*c.params)[:0]; c.route = nil; c.tsr = false", "intervening lookup(..., c, true): lazy lookups only reslice params and clear tsr")
 	fields := make([]*types.Var, 0, len(d.scopeOfField))
 	for f := range d.scopeOfField {
@@ -241,7 +241,7 @@ func checkScrubRule(w *World, r *Report, d *dispatchInfo, id string) {
 // checkScopePairing: the scope constant stored into the context before each special handler call equals the scope the
 // handler was wrapped with in New; route handlers run under the RouteHandler scope set by reset.
 func checkScopePairing(w *World, r *Report, d *dispatchInfo, id string) {
-	ru := r.Rule(id, "scope pairing: the table (handler field -> scope constant) read from New (r.F = applyMiddleware(K, ...)) equals the table read from ServeHTTP (constant held by c.scope at the call of r.F); the route chain runs under the scope set by reset (RouteHandler); the four special handlers are all wrapped", 5)
+	ru := r.Rule(id, "scope pairing: the table (handler field -> scope constant) read from New (r.F = applyMiddleware(K, ...)) equals the table read from ServeHTTP (constant held by c.scope at the call of r.F); the route chain runs under the scope set by reset (RouteHandler); the four special handlers are all wrapped", 3)
 	cf := d.cf
 	if len(d.scopeOfField) < 4 {
 		ru.Fail("special handlers wrapped in New", w.Pos(w.Func("New").Pos()), "no-route, no-method, redirect and auto-OPTIONS handlers are wrapped with their scope", fmt.Sprintf("only %d handler fields are assigned applyMiddleware(K, ...)", len(d.scopeOfField)))
@@ -280,7 +280,7 @@ func checkScopePairing(w *World, r *Report, d *dispatchInfo, id string) {
 
 // checkAllowLoops verifies the two Allow-building loops.
 func checkAllowLoops(w *World, r *Report, d *dispatchInfo) {
-	ru := r.Rule("C11.4", "Allow loops: each lazy lookup uses the loop root's key, the request host and the very path value of the main lookup; a method is appended only when the lookup matched and (no trailing-slash action is needed or the route ignores trailing slashes); the 405 loop skips exactly the request method; the Allow header is set before the special handler runs", 6)
+	ru := r.Rule("C11.4", "Allow loops: each lazy lookup uses the loop root's key, the request host and the very path value of the main lookup; a method is appended only when the lookup matched and (no trailing-slash action is needed or the route ignores trailing slashes); the 405 loop skips exactly the request method; the Allow header is set before the special handler runs", 3)
 	if len(d.lazyLooks) != 2 {
 		ru.Fail("lazy lookups in ServeHTTP", w.Pos(d.fn.Pos()), "one lazy lookup per Allow loop (OPTIONS and 405)", fmt.Sprintf("%d found", len(d.lazyLooks)))
 	}
